@@ -134,6 +134,23 @@ def main():
     # every third larger net also with one junction out of service together with all its elements (1-based labels: label != row position)
     jobs += [{"id": "o%d" % i, "an": with_consistent_outage(n["net"], i), "params": c01.row_params(n["net"]), "multi": (i % 4 != 0), "k": i}
              for i, n in enumerate(n2) if i % 3 == 0 and len(n["net"]["J"]) >= 3]
+    def with_parallel_pipe(an):
+        """a second, longer pipe between the junctions of the first in-service pipe (parallel edges: shortest paths take the shorter one)"""
+        import copy
+        an = copy.deepcopy(an)
+        pipes = [e for e in an["E"] if e["tbl"] == "pipe" and e["svc"]]
+        if not pipes:
+            return None
+        p0 = pipes[0]
+        an["E"].append(dict(p0, lab=max(e["lab"] for e in an["E"] if e["tbl"] == "pipe") + 1))
+        return an
+    for i, n in enumerate(n2):
+        if i % 4 == 1:
+            a2 = with_parallel_pipe(n["net"])
+            if a2 is not None:
+                prm = c01.row_params(a2)
+                prm[("pipe", a2["E"][-1]["lab"])] = {"length_km": 0.9}
+                jobs.append({"id": "p%d" % i, "an": a2, "params": prm, "multi": True, "k": i})
     cases = [c for c in core.pmap(run_case, jobs, chunksize=16) if "skip" not in c]
     by_id = {c["id"]: c for c in cases}
     res, fails = validate(cases)
